@@ -111,6 +111,8 @@ func newCert(cn string, key *rsa.PrivateKey, nb, na time.Time) *KeyPair {
 type World struct {
 	IdP1, IdP2, Attacker, SPEnc, SPSign, Other *KeyPair
 	IdPOld                                     *KeyPair // a store member whose certificate expired before the fake clock (key roll-over leftovers)
+	// "re-issued" certificates: same subject and same key pair as IdP1 / IdPOld, other serial and validity; NOT in any store
+	IdP1Re, IdPOldRe *KeyPair
 	// a certificate that carries IdP1's name/cert bytes but whose private key is the attacker's cannot
 	// exist (the cert binds the public key); "trusted cert + foreign key" = sign with the attacker key and
 	// embed IdP1's certificate in KeyInfo.
@@ -129,7 +131,10 @@ func getWorld() *World {
 			SPSign:   newCert("sp-sign", rsaKey("spsign"), certNB, certNA),
 			Other:    newCert("other", rsaKey("other"), certNB, certNA),
 			IdPOld:   newCert("idp-old", rsaKey("idpold"), certNB.AddDate(-2, 0, 0), certNB.AddDate(-1, 0, 0)),
+			IdP1Re:   newCert("idp1", rsaKey("idp1"), certNB.AddDate(0, 0, -1), certNA.AddDate(1, 0, 0)),
+			IdPOldRe: newCert("idp-old", rsaKey("idpold"), certNB, certNA),
 		}
+		world.IdP1Re.Name, world.IdPOldRe.Name = "idp1-reissued(not in store)", "idp-old-reissued(not in store)"
 	})
 	return world
 }
